@@ -119,6 +119,13 @@ def _files_of(case):
     """the case's files; in one case of three the last file takes the first one's name (same or swapped letter case):
     an image may hold several files of one name, and every one of them is a file of the source"""
     files = [dict(f) for f in case["files"]]
+    # the file set has to fit on a disk (68 granules) whenever a disk is the source or a target: trailing files are dropped
+    used = 0
+    for i, f in enumerate(files):
+        used += filegen.stream_len(f) // 2304 + 1
+        if used > 68:
+            files = files[:i]
+            break
     if case.get("dup", 1) % 3 == 0 and len(files) >= 2:
         first = files[0]["name"]
         files[-1]["name"] = first.swapcase() if case["dup"] == 3 else first
